@@ -350,6 +350,15 @@ def r17_4(ctx):
         ctx.functions.add(q)
 
 
+def r17_borrowed(ctx):
+    """Text survives save and load unchanged - also through the less travelled parts of the file code: the writer hands every
+    message on exactly once (end_of_track folding, shared with C07 R07.5), and loading with clip=True leaves meta payloads alone
+    (shared with C08 R08.5: clipping is for MIDI data bytes; bytes above 127 are what non-ASCII text is made of)."""
+    from . import c07, c08
+    ctx.borrow(c07.r07_5, 'R17.5')
+    ctx.borrow(c08.r08_clip, 'R17.6')
+
+
 def r17_nested(ctx):
     """Nested overrides unwind level by level."""
     ai = make_interp(ctx)
@@ -478,4 +487,4 @@ def r17_faults(ctx):
     ai.global_store.pop(KEY, None)
 
 
-RULES = [('R17-faults', r17_faults), ('R17-text-specs', r17_text_specs), ('R17-scoping', r17_scoping), ('R17-nested', r17_nested), ('R17.2', r17_2), ('R17.4', r17_4)]
+RULES = [('R17-borrowed', r17_borrowed), ('R17-faults', r17_faults), ('R17-text-specs', r17_text_specs), ('R17-scoping', r17_scoping), ('R17-nested', r17_nested), ('R17.2', r17_2), ('R17.4', r17_4)]
